@@ -236,7 +236,16 @@ IErrs == T(IErrKinds(4, EstT, {"inflight", "idle"}, {"right", "wrong"}, QQ)
            \cup IErrRec(4, {"big"}, MTU4, EstT, {"inflight"}, {"right", "wrong"}, QQ)
            \cup IErrKinds(6, {"est-ts"}, {"inflight"}, {"right"}, {"full", "t4"})
            \cup IErrKinds(6, {"udp-bound", "none"}, {"idle"}, {"right"}, {"full"}))
-Cases == Frames \cup Seqs \cup Pressure \cup ESeqs \cup IErrs
+(* Many holes: n disjoint out-of-order blocks (sz bytes each, gaps of gap bytes, the first gap at
+   rcvNxt) on an established connection, sent ascending, descending or shuffled; dup: each block
+   again, or "merge": segments that overlap two neighbours and merge them; fill: then the gaps are
+   filled.  Exercises the fixed-size per-connection tables (SACK block list of the receiver, the
+   out-of-order heap). *)
+Holes == [k : {"holes"}, mode : {"pas"}, sk : {0, 1}, n : T(2..12 \cup {40}, {2, 6, 7, 8, 12, 40}), sz : {1, 5}, gap : T({1, 7}, {1}),
+          ord : {"asc", "desc", "shuf"}, dup : {"none", "dup", "merge"}, fill : BOOLEAN]
+         \cup [k : {"holes"}, mode : {"act"}, sk : {1}, n : T(2..12, {2, 7, 12}), sz : {1, 5}, gap : {1}, ord : {"asc", "desc", "shuf"},
+                dup : T({"none", "dup", "merge"}, {"none"}), fill : BOOLEAN]
+Cases == Frames \cup Seqs \cup Pressure \cup ESeqs \cup IErrs \cup Holes
 
 -----------------------------------------------------------------------------
 (* Numbers for the concretiser *)
